@@ -63,7 +63,7 @@ def _one_in_child(run, judge, prefix, bound, warmup=None, post=None):
     return pickle.loads(data)
 
 
-def explore_calls(acc, calls, files, bound, judge, kind, case, max_exec=50_000, horizon=200_000, warmup=None, max_hits=None, post=None):
+def explore_calls(acc, calls, files, bound, judge, kind, case, max_exec=50_000, horizon=200_000, warmup=None, max_hits=None, post=None, visible=False):
     """calls: list of zero-argument callables (one per thread) returning an observation; files: tuple of path suffixes
     whose frames are scheduling points; judge(observations, errors) -> [(key, desc)].  Every execution runs in its own
     forked child, so the calls are always the FIRST calls of their process image."""
@@ -79,7 +79,7 @@ def explore_calls(acc, calls, files, bound, judge, kind, case, max_exec=50_000, 
             def target():
                 results[i] = calls[i]()
             return target
-        sch = Sched(ctx, [mk(i) for i in range(len(calls))], want, state_fn=None, horizon=horizon)
+        sch = Sched(ctx, [mk(i) for i in range(len(calls))], want, state_fn=None, horizon=horizon, visible=visible)
         sch.run()
         return results, {t: f"{type(e).__name__}: {e}" for t, e in sch.errors.items()}, sch.abort, sch.deadlock
 
@@ -98,7 +98,7 @@ def explore_calls(acc, calls, files, bound, judge, kind, case, max_exec=50_000, 
         transitions += (1 if prefix else 0) + len(r["points"])
         for key, desc in r["viol"]:
             sw = sum(1 for c in r["choices"] if c)
-            acc.violation(kind, dict(case, choices=r["choices"]), key, desc + f" [schedule with {sw} thread switch(es) of {len(r['choices'])} points]")
+            acc.violation(kind, dict(case, choices=r["choices"], **({"visible": True} if visible else {})), key, desc + f" [schedule with {sw} thread switch(es) of {len(r['choices'])} points]")
         for (i, n, costs, cost_before, hit) in r["points"]:
             if max_hits is not None and hit > max_hits and n > 1:
                 skipped_hits += 1      # loop bound: preemption offered only at the first max_hits executions of a line per thread
@@ -122,7 +122,7 @@ def explore_calls(acc, calls, files, bound, judge, kind, case, max_exec=50_000, 
     return R
 
 
-def replay_calls(calls, files, choices, judge, horizon=200_000, warmup=None, post=None):
+def replay_calls(calls, files, choices, judge, horizon=200_000, warmup=None, post=None, visible=False):
     _preimport()
     if warmup is not None:
         warmup()
@@ -137,7 +137,7 @@ def replay_calls(calls, files, choices, judge, horizon=200_000, warmup=None, pos
             def target():
                 results[i] = calls[i]()
             return target
-        sch = Sched(ctx, [mk(i) for i in range(len(calls))], want, state_fn=None, horizon=horizon)
+        sch = Sched(ctx, [mk(i) for i in range(len(calls))], want, state_fn=None, horizon=horizon, visible=visible)
         sch.run()
         return results, {t: f"{type(e).__name__}: {e}" for t, e in sch.errors.items()}, sch.abort, sch.deadlock
     ex = Explorer(run, cache=False)
@@ -181,12 +181,12 @@ def _case_setup(chk, prop, scen):
     return calls, warm, judge, post
 
 
-def explore_cases(acc, chk, prop, scen, files, bound, max_exec=20_000, max_hits=None):
+def explore_cases(acc, chk, prop, scen, files, bound, max_exec=20_000, max_hits=None, visible=False):
     calls, warm, judge, post = _case_setup(chk, prop, scen)
     case = {"threads": [list(t) for t in scen["threads"]], "warm": [list(t) for t in scen.get("warm", [])], "post": [list(t) for t in scen.get("post", [])]}
-    return explore_calls(acc, calls, files, bound, judge, "concurcase", case, max_exec=max_exec, warmup=warm, max_hits=max_hits, post=post)
+    return explore_calls(acc, calls, files, bound, judge, "concurcase", case, max_exec=max_exec, warmup=warm, max_hits=max_hits, post=post, visible=visible)
 
 
 def replay_cases(chk, prop, case, files):
     calls, warm, judge, post = _case_setup(chk, prop, case)
-    return replay_calls(calls, files, case["choices"], judge, warmup=warm, post=post)
+    return replay_calls(calls, files, case["choices"], judge, warmup=warm, post=post, visible=bool(case.get("visible")))
